@@ -8,7 +8,7 @@
    sat-level statement ("Index::find(sat) returns the same satpoint") is only tied by correspondence and by
    the oracle (see props/C03.json). *)
 From OrdV Require Import Base.Prelude Generated Index.Inscr Proofs.Inscr_tables Proofs.Inscr_proofs
-  Proofs.Inscr_c06 Proofs.Inscr_c04 Proofs.Inscr_c03 Proofs.Inscr_sats Proofs.Inscr_satinv.
+  Proofs.Inscr_c06 Proofs.Inscr_c04 Proofs.Inscr_c03 Proofs.Inscr_sats Proofs.Inscr_satinv Proofs.Inscr_c03b.
 From Coq Require Import Permutation.
 
 (* (1) old inscriptions of an input keep their place inside it: offset in the transaction = value of the
@@ -143,6 +143,15 @@ Proof.
   - eexists. split; [vm_compute; reflexivity|]. split; reflexivity.
 Qed.
 
+(* (10) the location changes only when the holding output is spent: indexing a transaction leaves the entry
+   (value, sat ranges, inscriptions with their offsets) of every real output that it neither spends nor creates
+   exactly as it was.  (The end-of-block step only touches the null outpoint.) *)
+Theorem C03_untouched_outputs : forall cfg h insc first t b b' k,
+  index_tx cfg h insc first t b = Ok b' ->
+  ~ In k (t_ins t) -> fst k <> t_id t -> fst k <> 0 ->
+  tget pair_eqb k (s_utxo (b_st b')) = tget pair_eqb k (s_utxo (b_st b)).
+Proof. exact untouched_outputs. Qed.
+
 (* Non-vacuity of (3): offsets 5, 0, 12, 30 over outputs of 10 and 15 (the second an OP_RETURN): 0 and 5 land
    in output 0, 12 in output 1 at offset 2, 30 is left over. *)
 Example C03_nonvacuous :
@@ -161,3 +170,4 @@ Print Assumptions C03_new_inscription.
 Print Assumptions C03_old_burned.
 Print Assumptions C03_sats_fifo.
 Print Assumptions C03_location_is_sat_location.
+Print Assumptions C03_untouched_outputs.
